@@ -31,36 +31,45 @@ func main() {
 	Main(map[string]PropFunc{"C20": runC20})
 }
 
-func panicKind(msg string) string {
-	switch {
-	case strings.Contains(msg, "index out of range"):
-		return "index"
-	case strings.Contains(msg, "slice bounds out of range"):
-		return "slice"
-	case strings.Contains(msg, "nil pointer dereference"):
-		return "nil"
-	case strings.Contains(msg, "interface conversion"):
-		return "typeassert"
-	case strings.Contains(msg, "runtime error"):
-		return "runtime-other"
+// envTrouble: the outcome shows a fault of the test environment (pseudo terminals exhausted, login of the
+// simulated device timed out under load), not of the input.
+func envTrouble(o c20Outcome) bool {
+	t := o.Stderr + o.Details
+	for _, p := range []string{"/dev/ptmx", "while waiting for login prompt", "while waiting for prompt", "fork/exec", "resource temporarily unavailable", "too many open files"} {
+		if strings.Contains(t, p) {
+			return true
+		}
 	}
-	return "explicit"
+	return false
 }
 
 // judge applies the oracle to one outcome; returns the failure signature or nil.
+// Panic signatures: pred = panic:<innermost function of the module on the stack>, kind = runtime fault class
+// (from the panic VALUE: runtime.Error) or "explicit" (a panic statement), msg = fixed head of the message,
+// plus attributes computed from the INPUT alone (info_bad, unclosed_quote) that the known entries pin.
 func judge(c *c20Case, o c20Outcome) (map[string]any, string) {
 	switch {
 	case o.Hang:
 		return map[string]any{"pred": "hang", "prog": c.Prog}, "no termination within the per-case timeout"
 	case o.Died != "":
-		return map[string]any{"pred": "died:" + o.Where, "prog": c.Prog}, "worker process died: " + trunc(o.Died, 300)
+		return map[string]any{"pred": "died:" + o.Where, "kind": o.Kind, "msg": o.Msg, "prog": c.Prog}, "worker process died: " + trunc(o.Died, 300)
 	case o.Panic != "":
-		return map[string]any{"pred": "panic:" + o.Where, "kind": panicKind(o.Panic), "prog": c.Prog},
+		return map[string]any{"pred": "panic:" + o.Where, "kind": o.Kind, "msg": o.Msg, "prog": c.Prog,
+				"info_bad": infoBad(c), "unclosed_quote": unclosedQuote(c)},
 			"Go panic instead of a diagnostic: " + trunc(o.Panic, 200)
 	case o.Status != 0 && o.Status != 1:
 		return map[string]any{"pred": "exit-status", "prog": c.Prog}, fmt.Sprintf("exit status %d", o.Status)
 	case o.Status == 1 && strings.TrimSpace(o.Stderr) == "" && strings.TrimSpace(o.Stdout) == "":
 		return map[string]any{"pred": "silent-reject", "prog": c.Prog}, "exit status 1 without any message"
+	case o.Status == 1 && !envTrouble(o):
+		text := o.Stderr + "\n" + o.Details
+		if strings.TrimSpace(o.Stderr) == "" {
+			text = o.Stdout
+		}
+		if namesInput(c, text) == "" {
+			return map[string]any{"pred": "reject-without-naming-input", "prog": c.Prog, "msg": msgHead(strings.TrimPrefix(strings.TrimPrefix(strings.TrimSpace(errorPart(text)), "ERROR>>> "), "Error: "))},
+				"rejected (exit status 1), but the message names neither the file nor a line, command or object of the input: " + trunc(strings.TrimSpace(text), 300)
+		}
 	}
 	return nil, ""
 }
@@ -287,6 +296,7 @@ func runC20(ctx *Ctx) *Result {
 	res := NewResult()
 	res.Rule = "oracle: a case is non-trivial if its input differs from the unmutated test (a mutation, garbage, cross-type or wrapper case) and the real program reached a verdict on it; correspondence: a case is non-trivial if the model function consumed at least one token past the first bounds check (result, diagnostic or panic other than on the empty list)"
 	timeout := 20 * time.Second
+	os.Setenv("C20_REPO", ctx.Repo)
 
 	if ctx.Replay != "" {
 		var c c20Case
@@ -407,7 +417,17 @@ func runC20(ctx *Ctx) *Result {
 		}
 	}
 
+	var dump *os.File
+	if p := os.Getenv("C20_DUMP"); p != "" {
+		dump, _ = os.Create(p)
+		defer dump.Close()
+	}
 	sink := func(c *c20Case, o c20Outcome) {
+		if dump != nil && c.Class != "size" {
+			b, _ := json.Marshal(map[string]any{"prog": c.Prog, "args": c.Args, "type": c.Type, "test": c.Test, "mut": c.Mut, "class": c.Class,
+				"files": c.Files, "status": o.Status, "stderr": o.Stderr, "stdout": o.Stdout, "panic": o.Panic, "where": o.Where, "kind": o.Kind, "msg": o.Msg, "details": o.Details, "info_bad": infoBad(c), "unclosed_quote": unclosedQuote(c)})
+			dump.Write(append(b, '\n'))
+		}
 		nontrivial := c.Class != "unmutated" && !o.Hang && o.Died == ""
 		res.Eval(c.canon(), nontrivial)
 		res.Count("class:" + c.Class)
